@@ -554,9 +554,9 @@ PROPS["C11"] = dict(
 
 PROPS["C02"] = dict(
     title="Acknowledged mode recovers from any bounded loss, duplication and reordering",
-    module="Cfdp.Props.C02i",
+    module="Cfdp.Props.C02c",
     namespace="Cfdp.Seg",
-    theorems=["C02_round_completes", "C02_gaps_answered", "Cfdp.Recv.C02_finishes_when_complete", "Cfdp.Recv.C02_never_waits_complete", "Cfdp.Recv.C02_complete_is_success", "Cfdp.Recv.C02_size_check_passes", "Cfdp.Loop.C02_no_integrity_fault", "Cfdp.Net.C02_two_party_no_integrity_fault"],
+    theorems=["C02_round_completes", "C02_gaps_answered", "Cfdp.Recv.C02_finishes_when_complete", "Cfdp.Recv.C02_never_waits_complete", "Cfdp.Recv.C02_complete_is_success", "Cfdp.Recv.C02_size_check_passes", "Cfdp.Loop.C02_no_integrity_fault", "Cfdp.Net.C02_two_party_no_integrity_fault", "Cfdp.Loop.C02_recv_completes", "Cfdp.Loop.C02_send_completes"],
     engines=["daemon", "recv", "send", "net"],
     design="§6 C02",
     technique="Lean 4 proofs of the recovery steps over the segment / receiver / sender models; the composition over a lossy link is checked on two real daemons under a virtual clock with bounded fault plans",
@@ -565,7 +565,14 @@ PROPS["C02"] = dict(
                 "(C02_gaps_answered; the requests are exactly what is missing by C08_exact, the sender's answers carry exactly the requested bytes of the file by C07); in the "
                 "iteration in which the last missing piece arrives the receiver finalises, enters the Finished phase and queues the Finished PDU "
                 "(C02_finishes_when_complete), and along every history an acknowledged receiver that is still collecting although Metadata and EOF have arrived really misses file data - it never sits on a complete file (C02_never_waits_complete, invariant Waiting, Props/C02w.lean); and when the segment list covers [0, size) of a staging file that agrees with the source (C01's invariant), with the Metadata and a NoError EOF carrying the source's size and checksum, check_finished verifies the checksum, copies the file under the destination name (if the filestore lets it), records NoError / Complete / Retained, tells the user so and queues a Finished PDU saying the same (C02_complete_is_success, Props/C02s.lean; the checksum the receiver computes over the complete staging file is the one C07_eof puts in the EOF: fileChecksum_true, via C14); with a peer that only ever reports the source's true size and checksum the receiver never declares FileSizeError or FileChecksumFailure, along every history of deliveries, timeouts and user operations (C02_size_check_passes, C02_no_integrity_fault, invariant Link, Props/C02i.lean), and in the two-party model that hypothesis is discharged by the real sender's outputs (C02_two_party_no_integrity_fault); every unanswered EOF / Finished / NAK is retransmitted once per timer expiry up to the limit (C17_*_ack_expiry, "
-                "C17_send_eof_rearms, C08_queue_after_eof); duplicates and stragglers after completion change nothing (C04). PARTIAL: that these steps compose to completion "
+                "C17_send_eof_rearms, C08_queue_after_eof); duplicates and stragglers after completion change nothing (C04). "
+                "Composition on the receiving side is a theorem (Props/C02c.lean): take any history of an acknowledged receiver in which no timer expires and the user does not "
+                "interfere (PDUs of an un-cancelled sender of the file, transmission opportunities, prompts, report requests, at one clock reading) - any order, any duplicates, "
+                "whatever was lost before; if by its end the Metadata, an EOF and file data covering every byte have each been delivered at least once, the receiver is in the "
+                "Finished phase with NoError / Complete / Retained (C02_recv_completes: invariant Prog - still collecting and holding everything delivered so far, or finished "
+                "successfully - carried with C01's Good and C02i's Link; the collecting case is closed by C02_never_waits_complete); and when that Finished PDU reaches the "
+                "sender, in whatever phase, it records the outcome, tells its user, and its next transmission is the ACK(Finished) with which it ends (C02_send_completes). "
+                "So recovery needs nothing but delivery. PARTIAL: that the retransmissions which bring that delivery about happen "
                 "whenever fewer than `limit` consecutive transmissions of any PDU are lost is a liveness statement about two transaction models, the link and the scheduler; "
                 "it is not a theorem here. It is checked on the real code: the daemon engine runs acknowledged transfers between two real daemons with every kind of fault "
                 "plan below the limit and requires file identity, success at both users and termination of both transactions (oracles recovers, same_outcome, daemon_bounded); the net engine does the same on a real sender and a real receiver in lockstep with both Lean models (losses confined to a zero-time phase, then a loss-free link)."),
